@@ -323,7 +323,8 @@ class ExcelModel:
             return cell
 
     def complete(self, stack=None):
-        done = set(self.cells)
+        # Names are registered with their book: they are followed when reached.
+        done = set(self.cells).difference(self.references)
         if stack is None:
             pred, dfl = self.dsp.dmap.pred, self.dsp.default_values
             stack = {  # Nodes that nothing defines yet.
